@@ -35,12 +35,14 @@ struct Cfg
     long vm_budget = 50000000;
     int items_per_task = 4;
     bool check_restore = true;
+    bool visit_states = false;  // call D::visit once for every distinct state (including the states of the last level)
 };
 
 // Domain D provides:
 //   struct Model;                                              reference model (copyable)
 //   static std::vector<std::string> seeds(schema);             seed histories ("" = empty library)
 //   static std::vector<Op> alphabet(const Model&, const World&, int depth_left);
+//   static void visit(World&, Model&, const std::string& cid, Agg&);   called once per distinct state when Cfg::visit_states is set
 //   static std::string key_extra(const Model&);                harness-side state that is not in the database (e.g. ids of stale handles)
 //   static bool step(World&, Model&, const Op&, const Outcome&, Agg&, const std::string& cid, bool checking);
 //        applies the operation's effect to the model (given what the implementation did), and, when `checking`,
@@ -87,7 +89,7 @@ Stats explore(const Options& o, const Cfg& cfg, Reporter& rep, Agg& total)
         size_t schema_idx;
         std::vector<std::string> items;  // histories to expand (or, at level 0, to register)
     };
-    for (int level = 0; level <= max_depth; ++level)
+    for (int level = 0; level <= max_depth + (cfg.visit_states ? 1 : 0); ++level)
     {
         std::vector<Task> tasks;
         for (size_t si = 0; si < ps.size(); ++si)
@@ -99,7 +101,7 @@ Stats explore(const Options& o, const Cfg& cfg, Reporter& rep, Agg& total)
                 tasks.push_back(t);
                 continue;
             }
-            if (level > p.depth) continue;
+            if (level > p.depth + (cfg.visit_states ? 1 : 0)) continue;
             for (size_t k = 0; k < p.frontier.size(); k += (size_t)cfg.items_per_task)
             {
                 Task t{si, {}};
@@ -132,6 +134,14 @@ Stats explore(const Options& o, const Cfg& cfg, Reporter& rep, Agg& total)
                         em.emit("S\t" + hash128(d0 + D::key_extra(m)) + "\t" + t.items[it]);
                         continue;
                     }
+                    if (cfg.visit_states && from <= (int64_t)it * 100000)
+                    {
+                        sub.at((int64_t)it * 100000);
+                        sub.label(sname + "|" + t.items[it] + " [visit]");
+                        D::visit(w, m, sname + "|" + t.items[it], a);
+                        a.count("states_visited");
+                    }
+                    if (level > ps[t.schema_idx].depth) { a.flush(em); continue; }  // visit-only pass over the last level
                     Image img = w.save();
                     auto ops = D::alphabet(m, w, ps[t.schema_idx].depth - depth_left_base);
                     a.count("expanded");
@@ -214,7 +224,7 @@ Stats explore(const Options& o, const Cfg& cfg, Reporter& rep, Agg& total)
         }
         for (size_t si = 0; si < ps.size(); ++si)
         {
-            if (level == 0 || level <= ps[si].depth)
+            if (level == 0 || level <= ps[si].depth + (cfg.visit_states ? 1 : 0))
             {
                 ps[si].frontier = std::move(next[si]);
                 if (level_complete) ps[si].done_depth = level;
